@@ -96,13 +96,13 @@ func init() {
 
 	addPlan(&propertyPlan{ID: "C19",
 		Scenarios: []scenarioPlan{
-			{Name: "c05_teardown", Quick: 1500, Thorough: 60000, Race: true}, {Name: "c06_handler", Quick: 1000, Thorough: 40000, Race: true},
-			{Name: "c09_callbacks", Quick: 1000, Thorough: 40000, Race: true}, {Name: "c04_stream", Quick: 600, Thorough: 20000, Race: true},
-			{Name: "c07_reader", Quick: 1000, Thorough: 40000, Race: true}, {Name: "c08_flush", Quick: 800, Thorough: 30000, Race: true},
-			{Name: "c13_server", Quick: 800, Thorough: 30000, Race: true}, {Name: "c14_dial", Quick: 800, Thorough: 30000, Race: true},
-			{Name: "c17_shardqueue", Quick: 800, Thorough: 30000, Race: true}, {Name: "c18_pool", Quick: 500, Thorough: 20000, Race: true},
-			{Name: "c10_isolation", Quick: 500, Thorough: 20000, Race: true}, {Name: "c10_batch", Quick: 400, Thorough: 20000, Race: true},
-			{Name: "c05_prepare", Quick: 400, Thorough: 15000, Race: true}, {Name: "c11_trigger", Quick: 400, Thorough: 15000, Race: true}},
+			{Name: "c05_teardown", Quick: 1500, Thorough: 15000, Race: true}, {Name: "c06_handler", Quick: 1000, Thorough: 10000, Race: true},
+			{Name: "c09_callbacks", Quick: 1000, Thorough: 10000, Race: true}, {Name: "c04_stream", Quick: 600, Thorough: 5000, Race: true},
+			{Name: "c07_reader", Quick: 1000, Thorough: 10000, Race: true}, {Name: "c08_flush", Quick: 800, Thorough: 7500, Race: true},
+			{Name: "c13_server", Quick: 800, Thorough: 7500, Race: true}, {Name: "c14_dial", Quick: 800, Thorough: 7500, Race: true},
+			{Name: "c17_shardqueue", Quick: 800, Thorough: 7500, Race: true}, {Name: "c18_pool", Quick: 500, Thorough: 5000, Race: true},
+			{Name: "c10_isolation", Quick: 500, Thorough: 5000, Race: true}, {Name: "c10_batch", Quick: 400, Thorough: 5000, Race: true},
+			{Name: "c05_prepare", Quick: 400, Thorough: 3750, Race: true}, {Name: "c11_trigger", Quick: 400, Thorough: 3750, Race: true}},
 		Rule: "the scenarios of C04-C11, C13, C14, C17, C18 (public API inside its concurrency contract: one reader, one writer, any number of closers per connection; no reconfiguration concurrent with Pick) executed in a -race build of the rewritten tree (netpoll's own race-build files: SafeLinkBuffer, fd->operator map); the simulator's hand-offs are hidden from the detector (runtime.RaceDisable around them, //go:norace on the shims), vsync.Mutex/Map are built on real atomics and vatomic calls the real instrumented atomics, so happens-before comes from netpoll's own synchronisation only; every new detector report is attributed to the run that produced it, reports with an access made by harness code are discarded; non-trivial/distinct as in the hosting scenario",
 		Assume: []string{"the Go race detector is the oracle (trusted base)", "a report is a pair of conflicting accesses that are unordered in that execution; the schedule search supplies which accesses occur", "reports are deduplicated per process, so a reported run is confirmed by replaying its unminimised tapes in a fresh process"},
 		Real:   commonReal, Stub: commonStub})
